@@ -2,6 +2,13 @@
 (* Trace validation for C13: accessor sets of lazy / owned-lazy values obtained in every way, and
    histories of clone / take / mutation on OwnedLazyValue.                                     *)
 EXTENDS OwnedLazy, Conform, Json, IOUtils
+RECURSIVE StripN(_)
+\* Strip with every number reduced to "a number"
+StripN(v) ==
+  CASE v.t = "num"  -> [t |-> "num"]
+    [] v.t = "arr"  -> [t |-> "arr", e |-> [i \in 1..Len(v.e) |-> StripN(v.e[i])]]
+    [] v.t = "obj"  -> [t |-> "obj", m |-> [i \in 1..Len(v.m) |-> <<v.m[i][1].s, StripN(v.m[i][2])>>]]
+    [] OTHER -> Strip(v)
 Rec == ndJsonDeserialize(IOEnv.TRACE)
 CONSTANT Checks
 VARIABLE l
@@ -27,14 +34,20 @@ AccBad(r) ==
           \/ x.bool.some # (v.t = "bool") \/ (x.bool.some /\ x.bool.b # v.b)
           \/ x.str.some # (v.t = "str") \/ (x.str.some /\ x.str.s # v.s)
           \/ x.num.some # (v.t = "num") \/ (x.num.some /\ ~NumMatches(v.lit, x.num.n))
-          \/ x.rawnum.some # (v.t = "num") \/ (x.rawnum.some /\ x.rawnum.raw # v.lit)
+          \/ x.rawnum.some # (v.t = "num") \/ (x.rawnum.some /\ src # "olv_to_lazyvalue" /\ x.rawnum.raw # v.lit)
+          \* (to_lazyvalue holds the canonical spelling of a number, which denotes the same value)
+          \/ (x.rawnum.some /\ src = "olv_to_lazyvalue" /\ v.t = "num" /\ ~(IsNumberLit(x.rawnum.raw) /\ NumMatches(x.rawnum.raw, x.num.n)))
           \* serialises back verbatim; a clone taken after the decoded form was cached may re-encode the
           \* text, it must still denote the same value
           \* Display prints what serialisation writes
           \/ (x.ser.some /\ x.disp # x.ser.b)
           \/ ~x.ser.some
-          \/ (src # "olv_clone" /\ x.ser.b # SubSeq(r.b, v.a + 1, v.z))
+          \/ (src \notin {"olv_clone", "olv_to_lazyvalue"} /\ x.ser.b # SubSeq(r.b, v.a + 1, v.z))
+          \* (an owned lazy value made by to_lazyvalue holds the canonical serialisation: value-level comparison as well)
           \/ (src = "olv_clone" /\ LET cr == BRun(x.ser.b, FALSE) IN ~(cr.s.m = "end" /\ Strip(cr.root) = Strip(v)))
+          \* to_lazyvalue re-spells numbers canonically: same structure, strings and literals; each number is judged by the accessor
+          \* clauses when its own path is visited
+          \/ (src = "olv_to_lazyvalue" /\ LET cr == BRun(x.ser.b, FALSE) IN ~(cr.s.m = "end" /\ StripN(cr.root) = StripN(v)))
   IN {src \in DOMAIN r.res : Bad(src)}
 
 \* fold the history over the model; state: <<model, clone model (or NoVal), bad step index or 0, step no>>
